@@ -26,7 +26,7 @@ def generate(streams, tier):
     r = streams.s("kind")
     big = tier == "thorough"
     wide = r.random() < 0.35
-    world = W.gen_bn(streams, max_n=(6 if wide else 5) if big else (6 if wide else 4), min_n=4 if wide else 2, max_card=3, max_parents=3 if wide else 2, max_joint=729, force_str_labels=True, allow_card1=False,
+    world = W.gen_bn(streams, max_n=(6 if wide else 5) if big else (6 if wide else 4), min_n=4 if wide else 2, max_card=3, max_parents=3 if wide else 2, max_joint=729, force_str_labels="or_int", allow_card1=False,
                      state_modes=[("str", 3), ("int_sorted", 2)])
     n = world["n"]
     rd = streams.s("data")
